@@ -158,6 +158,13 @@ def validation_lines(result):
                     lines.append("vl envPause %d %d" % (e[1], e[2]))
                 elif k == "envFailWrites":
                     lines.append("vl envFailWrites %d %d" % (e[1], e[2]))
+                elif k == "apiCancel":
+                    # ["apiCancel", sid, recorder name of the cancelled task or None, t]: the caller of send(sid) is cancelled ->
+                    # label `cancel` of the extended model (Model/SockX.lean), addressed by the task id the `vs` lines of that
+                    # caller carry.  A task cancelled before its first block has not called send() at all (the CancelledError
+                    # is raised at the start of the coroutine; it has no name / no `vs` line yet): nothing for the model to follow.
+                    if e[2] in hids:
+                        lines.append("vl cancel %d" % hids[e[2]][0])
             prev_snap = st["snap"]
             continue
         model_evs = []
